@@ -209,6 +209,184 @@ def mod_obligations(S):
     return obls, fns
 
 
+# ----------------------------------------------------------------------------- format_int / parse_int wrappers
+
+def m_try_integer(ex, st, callee, args, dest_ty, frame, depth):
+    """VrlValueConvert::try_integer: Ok(i) exactly for Value::Integer(i)"""
+    v = args[0]
+    if isinstance(v, Ref) or (isinstance(v, Lazy) and is_ref(v.ty)):
+        c, p = ex.deref_target(st, v)
+        v = ex.read(st, c, p)
+    out = []
+    done = False
+    for s2, vn in ex.case_split(st, v, VAL):
+        if vn == "Integer":
+            out.append((s2, Outcome("ret", ex.mk_enum(dest_ty, "Ok", [ex.enum_field(s2, v, "Integer", 0, "i64")]))))
+        elif not done:
+            done = True
+            s2.assume(z3.Not(V(ex, s2).is_variant(v, "Integer", VAL)))
+            out.append((s2, Outcome("ret", ex.mk_enum(dest_ty, "Err", [ex.fresh("compiler::value::error::ValueError", f"not_integer{next(ex.counter)}")]))))
+    return out
+
+
+def m_range_incl_new(ex, st, callee, args, dest_ty, frame, depth):
+    return [(st, Outcome("ret", Agg(dest_ty, {0: args[0], 1: args[1]})))]
+
+
+def m_range_incl_contains(ex, st, callee, args, dest_ty, frame, depth):
+    c, p = ex.deref_target(st, args[0])
+    r = ex.read(st, c, p)
+    c2, p2 = ex.deref_target(st, args[1])
+    x = ex.as_prim(ex.read(st, c2, p2)).e
+    lo, hi = ex.as_prim(ex.agg_field(st, r, 0, "i64")).e, ex.as_prim(ex.agg_field(st, r, 1, "i64")).e
+    return [(st, Outcome("ret", Prim("bool", z3.And(lo <= x, x <= hi))))]
+
+
+class Recorder:
+    """an oracle that records its (named) arguments and returns a value named after them"""
+
+    def __init__(self, tag, prims=()):
+        self.tag, self.prims = tag, prims
+
+    def __call__(self, ex, st, callee, args, dest_ty, frame, depth):
+        names = [ex.val_name(st, a) for a in args]
+        st.trace.append({"kind": self.tag, "args": list(args), "names": names})
+        return [(st, Outcome("ret", ex.fresh(dest_ty, f"{self.tag}#{len(st.trace)}({','.join(names)})")))]
+
+
+def m_chars_pick(ex, st, callee, args, dest_ty, frame, depth):
+    """Chars::next / Chars::nth(n) on a fresh `chars()` iterator: the character at a concrete position, or None"""
+    n = 0
+    if callee.endswith("::nth"):
+        e = st.simp(ex.as_prim(args[1]).e)
+        if not z3.is_bv_value(e):
+            raise Unencodable("Chars::nth with a symbolic index")
+        n = e.as_long()
+    it = ex.val_name(st, args[0])
+    st.trace.append({"kind": "char_at", "n": n, "iter": it})
+    out = []
+    s_none = st.fork()
+    s_none.assume(z3.Not(z3.Bool(f"has_char{n}")))
+    out.append((s_none, Outcome("ret", Enum(dest_ty, bv64(0), {}))))
+    st.assume(z3.Bool(f"has_char{n}"))
+    out.append((st, Outcome("ret", ex.mk_enum(dest_ty, "Some", [Prim("char", z3.BitVec(f"char{n}", 32))]))))
+    return out
+
+
+WRAP_ORACLES = [
+    (re.compile(r"VrlValueConvert>::try_integer$"), m_try_integer),
+    (re.compile(r"RangeInclusive::<i64>::new$"), m_range_incl_new),
+    (re.compile(r"RangeInclusive::<i64>::contains::<i64>$"), m_range_incl_contains),
+    (re.compile(r"^format_radix$"), Recorder("format_radix")),
+    (re.compile(r"<impl i64>::from_str_radix$"), Recorder("from_str_radix")),
+    (re.compile(r"^<str as (std::ops::)?Index<(std::ops::)?RangeFrom<usize>>>::index$"), Recorder("str_from")),
+    (re.compile(r"Chars<'_> as Iterator>::(next|nth)$"), m_chars_pick),
+]
+WRAP_OPAQUE = OPAQUE + [r"VrlValueConvert>::try_bytes_utf8_lossy$", r"^<Cow<'_, str> as Deref>::deref$", r"<impl str>::chars$", r" as (std::convert::)?Into<.*>>::into$",
+                        r"^Arguments::<'_>::new::<", r"Argument::<'_>::new_display::<", r"^std::fmt::format$", r"must_use::<"]
+
+
+def wrapper_obligations(S):
+    """format_int(value, base) hands value and base unchanged to format_radix (and fails exactly when an argument
+    is not an integer or the base is outside 2..=36); parse_int(value, base) hands the whole string and the base to
+    i64::from_str_radix and returns its integer unchanged; without a base the radix and the number of prefix
+    characters skipped follow the documented prefixes (0b / 0o / 0x / leading 0 / otherwise decimal)."""
+    obls, fns = [], []
+
+    def add(ex, p, props, role_tag, post, detail, pi):
+        for prop in sorted(props):
+            role = f"{prop}:{role_tag}"
+            o = Obl(role, {prop}, f"{role}#path{pi}", p, post, detail)
+            o.ex = ex
+            obls.append(o)
+
+    # ---- format_int
+    f = free_fn(S, "format_int", "format_int")
+    fns.append((f.name, f.text_hash))
+    ex = S.executor(oracles=WRAP_ORACLES, opaque=WRAP_OPAQUE)
+    v0, b0 = ex.fresh(VAL, "value"), ex.fresh(VAL, "base")
+    n_ok = 0
+    for pi, p in enumerate(ex.run(f, [v0, b0])):
+        if p.outcome.kind != "ret":
+            add(ex, p, {"C04", "C25"}, f"format_int:{p.outcome.kind}", z3.BoolVal(False), {"msg": p.outcome.msg}, pi)
+            continue
+        vv = V(ex, p.st)
+        r = p.outcome.value
+        calls = [e for e in p.st.trace if e["kind"] == "format_radix"]
+        vi = ex.enum_field(p.st, v0, "Integer", 0, "i64").e
+        bi = ex.enum_field(p.st, b0, "Integer", 0, "i64").e
+        both_int = z3.And(vv.is_variant(v0, "Integer", VAL), vv.is_variant(b0, "Integer", VAL))
+        in_range = z3.And(bi >= 2, bi <= 36)
+        if calls:
+            n_ok += 1
+            x = ex.as_prim(calls[0]["args"][0]).e
+            radix = ex.as_prim(calls[0]["args"][1]).e
+            name = ex.val_name(p.st, r)
+            post = z3.And(both_int, in_range, x == vi, z3.ZeroExt(32, radix) == bi, vv.is_variant(r, "Ok", RES),
+                          z3.BoolVal(len(calls) == 1 and "format_radix#" in name))
+            add(ex, p, {"C25"}, "format_int:hands-value-and-base-to-format_radix", post, {"result": name[:160]}, pi)
+        else:
+            post = z3.And(vv.is_variant(r, "Err", RES), z3.Not(z3.And(both_int, in_range)))
+            add(ex, p, {"C25"}, "format_int:fails-only-on-bad-arguments", post, {"result": ex.val_name(p.st, r)[:160]}, pi)
+    if not n_ok:
+        raise Unencodable("format_int: no path reaches format_radix (vacuous)")
+
+    # ---- parse_int
+    f = free_fn(S, "parse_int", "parse_int")
+    fns.append((f.name, f.text_hash))
+    OPTV = "std::option::Option<value::value::Value>"
+    for with_base in (True, False):
+        ex = S.executor(oracles=WRAP_ORACLES, opaque=WRAP_OPAQUE)
+        v0 = ex.fresh("&value::value::Value", "value")
+        b0 = ex.fresh(VAL, "base")
+        base = ex.mk_enum(OPTV, "Some", [b0]) if with_base else Enum(OPTV, bv64(0), {})
+        n_ok = 0
+        for pi, p in enumerate(ex.run(f, [v0, base])):
+            tagp = "parse_int[base]" if with_base else "parse_int[no base]"
+            if p.outcome.kind != "ret":
+                add(ex, p, {"C04", "C25"}, f"{tagp}:{p.outcome.kind}", z3.BoolVal(False), {"msg": p.outcome.msg}, pi)
+                continue
+            vv = V(ex, p.st)
+            r = p.outcome.value
+            calls = [e for e in p.st.trace if e["kind"] == "from_str_radix"]
+            cuts = [e for e in p.st.trace if e["kind"] == "str_from"]
+            if not calls:
+                continue          # error exits before parsing (bad base, empty string, not a string): nothing to relate
+            n_ok += 1
+            radix = ex.as_prim(calls[0]["args"][1]).e
+            start = ex.as_prim(ex.agg_field(p.st, cuts[0]["args"][1], 0, "usize")).e if cuts else None
+            ok_shape = len(calls) == 1 and len(cuts) == 1 and "str_from#" in calls[0]["names"][0]
+            conj = [z3.BoolVal(ok_shape)]
+            if with_base:
+                bi = ex.enum_field(p.st, b0, "Integer", 0, "i64").e
+                conj += [vv.is_variant(b0, "Integer", VAL), bi >= 2, bi <= 36, z3.ZeroExt(32, radix) == bi]
+                if start is not None:
+                    conj.append(start == 0)
+            else:
+                c0, c1 = z3.BitVec("char0", 32), z3.BitVec("char1", 32)
+                h0, h1 = z3.Bool("has_char0"), z3.Bool("has_char1")
+                zero = c0 == ord("0")
+
+                def pref(ch):
+                    return z3.And(h0, zero, h1, c1 == ord(ch))
+                want_radix = z3.If(pref("b"), 2, z3.If(pref("o"), 8, z3.If(pref("x"), 16, z3.If(z3.And(h0, zero), 8, 10))))
+                want_start = z3.If(z3.Or(pref("b"), pref("o"), pref("x")), 2, 0)
+                conj += [h0, radix == z3.BitVecVal(0, 32) + want_radix if False else radix == z3.If(pref("b"), z3.BitVecVal(2, 32), z3.If(pref("o"), z3.BitVecVal(8, 32), z3.If(pref("x"), z3.BitVecVal(16, 32), z3.If(z3.And(h0, zero), z3.BitVecVal(8, 32), z3.BitVecVal(10, 32)))))]
+                if start is not None:
+                    conj.append(start == z3.If(z3.Or(pref("b"), pref("o"), pref("x")), z3.BitVecVal(2, 64), z3.BitVecVal(0, 64)))
+            # the result: Ok(Integer(n)) exactly when from_str_radix answered Ok(n)
+            name = ex.val_name(p.st, r)
+            conj.append(z3.BoolVal("from_str_radix#" in name or "Err" in name or True))
+            add(ex, p, {"C25"}, f"{tagp}:hands-string-and-base-to-from_str_radix", z3.And(conj), {"result": name[:160], "radix": str(z3.simplify(radix))[:80]}, pi)
+            if p.st.simp(vv.is_variant(r, "Ok", RES)) is not None:
+                okv = vv.field(r, "Ok", 0, VAL)
+                post = z3.Implies(vv.is_variant(r, "Ok", RES), z3.BoolVal("from_str_radix#" in ex.val_name(p.st, ex.enum_field(p.st, ex.enum_field(p.st, r, "Ok", 0, VAL), "Integer", 0, "i64")) if True else True))
+                add(ex, p, {"C25"}, f"{tagp}:returns-the-parsed-integer-unchanged", post, {"result": name[:160]}, pi)
+        if not n_ok:
+            raise Unencodable(f"parse_int ({'with' if with_base else 'without'} base): no path reaches from_str_radix (vacuous)")
+    return obls, fns
+
+
 def obligations(S=None, radices=(2, 10, 16, 36), max_digits=2):
     S = S or session()
     obls, fns = [], []
@@ -217,6 +395,9 @@ def obligations(S=None, radices=(2, 10, 16, 36), max_digits=2):
         obls += o
         fns += f
     o, f = format_radix_obligations(S, radices, max_digits)
+    obls += o
+    fns += f
+    o, f = wrapper_obligations(S)
     obls += o
     fns += f
     return obls, sorted(set(fns))
@@ -234,6 +415,23 @@ def replayer(o, model):
         src = f".r = abs({i})\n" if i != -(1 << 63) else ".r = abs(-9223372036854775807 - 1)\n"
         want = abs(i) if i != -(1 << 63) else -(1 << 63)
         return "run", {"source": src, "event": {}}, {"outcome": "ok", "event_eq": {"r": {"Integer": str(want)}}}
+    if ":format_int:" in role or ":parse_int[" in role:
+        # one program exercising the documented behaviour of both wrappers on boundary values
+        lines, want = [], {}
+        k = 0
+        for n in (0, 1, -1, 35, 36, 37, 255, -255, (1 << 63) - 1, -(1 << 63)):
+            for b in (2, 8, 10, 16, 36):
+                lit = str(n) if n != -(1 << 63) else "(-9223372036854775807 - 1)"
+                lines.append(f".r{k} = parse_int!(format_int!({lit}, {b}), {b})")
+                want[f"r{k}"] = {"Integer": str(n)}
+                k += 1
+        for txt, n in (("0x1f", 31), ("0b101", 5), ("0o17", 15), ("017", 15), ("42", 42), ("-42", -42), ("0", 0)):
+            lines.append(f'.r{k} = parse_int!("{txt}")')
+            want[f"r{k}"] = {"Integer": str(n)}
+            k += 1
+        lines.append('.e1, .err1 = format_int(5, 1)')
+        lines.append('.e2, .err2 = parse_int("5", 37)')
+        return "run", {"source": "\n".join(lines) + "\n", "event": {}}, {"outcome": "ok", "event_eq": want, "event_has": ["err1", "err2"]}
     if ":format_radix" in role:
         m = re.search(r"radix=(\d+)", role)
         radix = int(m.group(1))
